@@ -152,6 +152,52 @@ extern "C" void h_sequence_history(void) {
    for (unsigned i = 0; i < n; ++i) vp_assert(get(n - 1 - i) == shadow[n - 1 - i], 305);      // backwards
    vp_done();
 }
+// partially built declarations: every link a front end sets after creation (definition, language linkage, lexical region, initializer,
+// function parameters / mapping, template mapping) is symbolically set or left unset, on a declaration and on its redeclaration, and the
+// definition link may designate either of them; then every accessor of both is swept.
+extern "C" void h_partial_decls(void) {
+   zoo::World* w = new zoo::World; auto& lx = w->lx;
+   unsigned kind = vp_pick(8); bool redeclare = vp_flag();
+   impl::Warehouse<ipr::Type> w1; w1.push_back(lx.int_type());
+   const ipr::Function& ft = lx.get_function(lx.get_product(w1), lx.bool_type());
+   impl::Warehouse<ipr::Type> w2; w2.push_back(lx.typename_type());
+   const ipr::Forall& fa = lx.get_forall(lx.get_product(w2), lx.class_type());
+   const ipr::Name& nm = *w->N[0];
+   Sweep v;
+   auto fill = [&](auto* first, auto* second, auto set_own) {
+      using D = std::remove_pointer_t<decltype(first)>;
+      unsigned def = vp_pick(redeclare ? 3 : 2);                     // the definition: unknown, the first declaration, the redeclaration
+      if (def == 1) first->decl_data.master_data->def = *first; else if (def == 2) first->decl_data.master_data->def = *second;
+      if (vp_flag()) first->decl_data.master_data->langlinkage = &lx.cxx_linkage();
+      set_own(first); if (second) set_own(second);
+      v.template node<typename D::Interface>(*first);
+      if (second) v.template node<typename D::Interface>(*second);
+   };
+   auto lexreg = [&](auto* d) { if (vp_flag()) d->lexreg = w->reg; };
+   switch (kind) {
+   case 0: { auto* a = w->reg->declare_var(nm, lx.int_type()); auto* b = redeclare ? w->reg->declare_var(nm, lx.int_type()) : nullptr;
+             fill(a, b, [&](impl::Var* d) { lexreg(d); if (vp_flag()) d->init = w->E[0]; }); break; }
+   case 1: { auto* a = w->reg->declare_field(nm, lx.int_type()); auto* b = redeclare ? w->reg->declare_field(nm, lx.int_type()) : nullptr;
+             fill(a, b, [&](impl::Field* d) { if (vp_flag()) d->init = w->E[0]; }); break; }
+   case 2: { auto* a = w->reg->declare_bitfield(nm, lx.int_type()); auto* b = redeclare ? w->reg->declare_bitfield(nm, lx.int_type()) : nullptr;
+             fill(a, b, [&](impl::Bitfield* d) { if (vp_flag()) d->length = w->E[1]; if (vp_flag()) d->init = w->E[0]; }); break; }
+   case 3: { auto* a = w->reg->declare_type(nm, lx.class_type()); auto* b = redeclare ? w->reg->declare_type(nm, lx.class_type()) : nullptr;
+             fill(a, b, [&](impl::Typedecl* d) { lexreg(d); if (vp_flag()) d->init = w->T[1]; }); break; }
+   case 4: { auto* a = w->reg->declare_alias(nm, lx.int_type()); auto* b = redeclare ? w->reg->declare_alias(nm, lx.int_type()) : nullptr;
+             fill(a, b, [&](impl::Alias* d) { if (vp_flag()) d->aliasee = w->E[1]; }); break; }
+   case 5: { auto* a = w->reg->declare_fun(nm, ft); auto* b = redeclare ? w->reg->declare_fun(nm, ft) : nullptr;
+             fill(a, b, [&](impl::Fundecl* d) { lexreg(d); unsigned how = vp_pick(3);       // nothing yet, its own parameter list, a mapping
+                if (how == 1) d->data.template emplace<0>(w->own(new impl::Parameter_list(*w->reg, Mapping_level{ 0 })));
+                else if (how == 2) d->data.template emplace<1>(lx.make_mapping(*w->reg, Mapping_level{ 0 })); }); break; }
+   default: { bool primary = kind == 6;
+             auto* a = primary ? w->reg->declare_primary_template(nm, fa) : w->reg->declare_secondary_template(nm, fa);
+             auto* b = redeclare ? (primary ? w->reg->declare_primary_template(nm, fa) : w->reg->declare_secondary_template(nm, fa)) : nullptr;
+             fill(a, b, [&](impl::Template* d) { lexreg(d); unsigned how = vp_pick(3);      // no mapping, a mapping without body, a mapping with body
+                if (how) { impl::Mapping* m = lx.make_mapping(*w->reg, Mapping_level{ 1 }); if (how == 2) m->body = w->E[0]; d->init = m; } }); break; }
+   }
+   vp_assert(v.accessors >= 1, 6);
+   vp_done();
+}
 // checked pointers and strings
 extern "C" void h_checked(void) {
    ipr::Optional<ipr::Expr> none; VP_MUST_THROW_LOGIC(none.get(), 200); vp_assert(!none.is_valid() && !none, 201);
